@@ -96,6 +96,11 @@ def model_check(name, case, rec):
     P = np.array(out[0], dtype=float).copy()
     A = np.array(um.hessian([F.copy(), None if sv_in is None else sv_in.copy()])[0], dtype=float).copy()
     rec.require("inputs-unchanged", np.array_equal(F, F0))
+    if sv_in is not None and e["nstate"]:
+        svh = sv_in.copy()
+        um.gradient([F.copy(), svh])
+        um.hessian([F.copy(), svh])
+        rec.require("stored-state-unchanged-by-gradient/hessian", np.array_equal(svh, sv_in))
     rec.require("shapes", P.shape == (3, 3) + batch and A.shape[:4] == (3, 3, 3, 3), [P.shape, A.shape])
     # non-smooth points of history models: keep away from the switch
     if "ogden_roxburgh" in name.lower() or name.startswith("OgdenRoxburgh"):
@@ -335,6 +340,17 @@ def small_check(name, case, rec):
 
     P = P_of(F)
     A = np.array(um.hessian([F.copy(), sv.copy()])[0], dtype=float).copy()
+    if ns:
+        # the stored state handed in is an input: gradient() and hessian() return the new state, they do not touch the old
+        # one (SolidBody calls both with the same arrays), and a repeated call returns the same stress
+        svh = sv.copy()
+        xin = [F.copy(), svh]
+        P1 = np.array(um.gradient(xin)[0], dtype=float).copy()
+        rec.require("gradient-leaves-the-stored-state-unchanged", np.array_equal(svh, sv))
+        um.hessian(xin)
+        rec.require("hessian-leaves-the-stored-state-unchanged", np.array_equal(svh, sv))
+        P2 = np.array(um.gradient(xin)[0], dtype=float).copy()
+        rec.close("repeated-call-same-stress", float(np.abs(P2 - P1).max()) / max(float(np.abs(P1).max()), 1e-300), 0.0)
     h = 1e-6 if not plastic else 1e-7 * 20 * case["sy"] / case["E"] * 50
     Afd = fd(P_of, F, h=h)
     sc = max(float(np.abs(A).max()), float(np.abs(Afd).max()))
